@@ -7,7 +7,7 @@ from vlib import core
 ID = "C01"
 MODULE = "RkVerif.Props.C01"
 DRIVER = "drv_c01"
-THOROUGH_MODULES = ["RkVerif.Model.C01", "RkVerif.Lemmas.C01", "RkVerif.Lemmas.C01Pipe", "RkVerif.Lemmas.C01Blocks"]
+THOROUGH_MODULES = ["RkVerif.Model.C01", "RkVerif.Lemmas.C01", "RkVerif.Lemmas.C01Live", "RkVerif.Lemmas.C01Pipe", "RkVerif.Lemmas.C01Blocks"]
 
 HW = os.cpu_count() or 1
 _INIT = "rkcommon/tasking/detail/tasking_system_init.cpp"
@@ -48,7 +48,9 @@ ASSUMPTIONS = [
     "nothing else, and return after all calls have finished (contract; observed on every run, not proved)",
     "sequential consistency for the scheduler's volatile / __sync accesses; the visibility of the bodies' effects to the "
     "caller under the C++ memory model is observed (plain array read after return), not proved",
-    "liveness (a queued partition is eventually found by some thread's index scan) is not proved; a hang is reported as a crash",
+    "liveness of the task-set path is proved for the model under scheduler fairness (no stuck state, every internal step "
+    "decreases a well-founded measure, quiescent states let every join return); that a queued partition is actually found "
+    "by some thread's index scan of the real pipes is observed (a hang is reported as a crash), not proved",
     "BLOCK_SIZE > 0 (now a static_assert); parallel_foreach is given a valid range (end reachable from begin)",
     "LP64: long, long long 64 bit; size_t = unsigned long; conversions to signed types are modular (gcc/clang)",
 ]
@@ -290,7 +292,10 @@ MANIFEST = dict(
           "pipe-full branch, TryRunTask re-splitting, running-count arithmetic, WaitforTask; thread identity abstracted, so every "
           "thread count, pipe capacity, interleaving and nesting is covered): inductive invariant 'executed + queued + in flight + "
           "to be split is a partition of [0,setSize) and the running count equals the partitions outstanding', hence a waiter that "
-          "reads count 0 after its add returned finds every index executed exactly once and nothing executing. (3) The pipe's flag "
+          "reads count 0 after its add returned finds every index executed exactly once and nothing executing; liveness under "
+          "scheduler fairness: no stuck state while anything is outstanding, every internal step strictly decreases a "
+          "lexicographic (well-founded) measure, and in a quiescent state every join may return (sched_no_stuck, "
+          "sched_step_decreases, sched_terminates, sched_quiescent_join; task sets added with m_MinRange >= 1). (3) The pipe's flag "
           "protocol: every written item is claimed by at most one reader and copied intact. The model is tied to the code by running "
           "the same generated loops (8 index types, boundary counts, nesting, uneven cost, occupied pipe) through the real library "
           "built for each of the four backends under ASan/UBSan and through the compiled model, and by replaying the partitions "
